@@ -75,6 +75,25 @@ fn idct_impulse(w: usize, h: usize, u: usize, v: usize, transposed: bool) -> Vec
     out
 }
 
+/// f64 definition of the nine transform types that are not plain DCTs (jxlw::transforms).  The 4x4
+/// sub-blocks of DCT4x4 and AFV keep their coefficients with the horizontal frequency along the rows.
+fn model_non_dct(t: TransformType, c: &[f64; 64]) -> [f64; 64] {
+    use jxlw::transforms as m;
+    use TransformType::*;
+    match t {
+        Hornuss => m::hornuss(c),
+        Dct2 => m::dct2x2(c),
+        Dct4 => m::dct4x4(c, true),
+        Dct4x8 => m::dct4x8(c, false),
+        Dct8x4 => m::dct4x8(c, true),
+        Afv0 => m::afv(c, 0, true),
+        Afv1 => m::afv(c, 1, true),
+        Afv2 => m::afv(c, 2, true),
+        Afv3 => m::afv(c, 3, true),
+        _ => unreachable!(),
+    }
+}
+
 struct TypeResult {
     evals: u64,
     impulses: u64,
@@ -175,7 +194,13 @@ fn check_type(t: TransformType, quick: bool, seed: u64, part: usize, nparts: usi
         }
         let mut inp = vec![0f32; w * h];
         inp[v * w + u] = 1.0;
-        let e = if is_dct_family(t) { Some(idct_impulse(w, h, u, v, transposed)) } else { None };
+        let e = if is_dct_family(t) {
+            Some(idct_impulse(w, h, u, v, transposed))
+        } else {
+            let mut c = [0f64; 64];
+            c[v * 8 + u] = 1.0;
+            Some(model_non_dct(t, &c).to_vec())
+        };
         check_input(&inp, &format!("impulse at ({u},{v})"), e.as_deref(), &mut res);
         res.impulses += 1;
         if res.viol.is_some() {
@@ -210,12 +235,184 @@ fn check_type(t: TransformType, quick: bool, seed: u64, part: usize, nparts: usi
                 }
             }
             Some(acc)
+        } else if !is_dct_family(t) {
+            let mut c = [0f64; 64];
+            for i in 0..64 {
+                c[i] = inp[i] as f64;
+            }
+            Some(model_non_dct(t, &c).to_vec())
         } else {
             None
         };
         check_input(&inp, &format!("block pattern {k}"), e.as_deref(), &mut res);
     }
     res
+}
+
+/// LF injection: `transform_varblocks` (as dispatched at run time) first derives the lowest
+/// bw x bh coefficients of a varblock from the LF image, then inverts.  Definition-level oracle: the
+/// LF image is the 8x downsampled image, so with all other coefficients zero the mean of every 8x8
+/// sub-block of the output equals the LF sample; with other coefficients present the result is the sum
+/// (linearity) of that and the plain inverse transform of the block with its lowest coefficients zeroed.
+fn check_lf_injection(t: TransformType, quick: bool, seed: u64) -> (u64, Option<(String, String)>) {
+    use jxl_grid::{AlignedGrid, SharedSubgrid};
+    use jxl_vardct::BlockInfo;
+    let (bw, bh) = t.dct_select_size();
+    let (bw, bh) = (bw as usize, bh as usize);
+    let (w, h) = (bw * 8, bh * 8);
+    let mut info = AlignedGrid::<BlockInfo>::with_alloc_tracker(bw, bh, None).unwrap();
+    for y in 0..bh {
+        for x in 0..bw {
+            *info.get_mut(x, y) = if x == 0 && y == 0 { BlockInfo::Data { dct_select: t, hf_mul: 1 } } else { BlockInfo::Occupied };
+        }
+    }
+    let shifts = [jxl_modular::ChannelShift::from_shift(0); 3];
+    let mut evals = 0u64;
+    let run = |lf: &[f32], coeff: &[f32]| -> Result<Vec<f32>, String> {
+        let mut lfbuf = lf.to_vec();
+        let mut bufs = [coeff.to_vec(), coeff.to_vec(), coeff.to_vec()];
+        let r = guard(|| {
+            let lfg = SharedSubgrid::from_buf(&lfbuf, bw, bh, bw);
+            let lfs = [lfg, lfg, lfg];
+            let [a, b, c] = &mut bufs;
+            let mut outs = [MutableSubgrid::from_buf(a, w, h, w), MutableSubgrid::from_buf(b, w, h, w), MutableSubgrid::from_buf(c, w, h, w)];
+            vv::transform_varblocks(&lfs, &mut outs, shifts, &info.as_subgrid());
+        });
+        lfbuf.clear();
+        r.map_err(|p| format!("panic: {p}"))?;
+        if bufs[0] != bufs[1] || bufs[0] != bufs[2] {
+            return Err("the three channels were given identical input but differ".into());
+        }
+        Ok(bufs[0].clone())
+    };
+    let means = |o: &[f32]| -> Vec<f64> {
+        let mut m = vec![0f64; bw * bh];
+        for y in 0..h {
+            for x in 0..w {
+                m[(y / 8) * bw + x / 8] += o[y * w + x] as f64 / 64.0;
+            }
+        }
+        m
+    };
+    // LF inputs: an impulse at every LF position (capped in quick for the largest blocks), flat, random
+    let mut lfs: Vec<(String, Vec<f32>)> = vec![];
+    let n = bw * bh;
+    let step = if quick && n > 64 { n / 64 + 1 } else { 1 };
+    for i in (0..n).step_by(step) {
+        let mut l = vec![0f32; n];
+        l[i] = 1.0;
+        lfs.push((format!("LF impulse at ({},{})", i % bw, i / bw), l));
+    }
+    lfs.push(("flat LF 0.375".into(), vec![0.375; n]));
+    let mut rng = Lcg(seed ^ 0x1f ^ (w * 977 + h) as u64);
+    lfs.push(("random LF".into(), (0..n).map(|_| (rng.below(2001) as f32 - 1000.0) / 1000.0).collect()));
+    let zero = vec![0f32; w * h];
+    for (label, lf) in &lfs {
+        evals += 1;
+        let o = match run(lf, &zero) {
+            Ok(o) => o,
+            Err(e) => return (evals, Some((format!("lf-injection-failed:{:?}", t), format!("{label}: {e}")))),
+        };
+        let m = means(&o);
+        let sc = lf.iter().fold(1e-3f64, |a, v| a.max(v.abs() as f64));
+        for i in 0..n {
+            if !((m[i] - lf[i] as f64).abs() <= 2e-5 * sc.max(1.0)) {
+                return (evals, Some((format!("lf-injection-mean:{:?}", t), format!("{label}, no other coefficients: mean of 8x8 sub-block ({},{}) is {} but the LF sample is {}", i % bw, i / bw, m[i], lf[i]))));
+            }
+        }
+    }
+    // with HF present: result = inverse(block with lowest coefficients zeroed) + result(LF only)
+    {
+        let lf = &lfs.last().unwrap().1;
+        let hf: Vec<f32> = (0..w * h).map(|i| if (i % w) < bw && (i / w) < bh { 7.5 } else { (rng.below(2001) as f32 - 1000.0) / 4000.0 }).collect();
+        evals += 3;
+        let both = run(lf, &hf);
+        let lf_only = run(lf, &zero);
+        let mut hf0 = hf.clone();
+        for y in 0..bh {
+            for x in 0..bw {
+                hf0[y * w + x] = 0.0;
+            }
+        }
+        let path = *vv::paths().last().unwrap();
+        let hf_only = run_transform(path, t, w, h, &hf0, 0, 0);
+        match (both, lf_only, hf_only) {
+            (Ok(a), Ok(b), Ok(c)) => {
+                let sc = a.iter().fold(1.0f64, |m, v| m.max(v.abs() as f64));
+                for i in 0..w * h {
+                    let d = (a[i] as f64 - (b[i] as f64 + c[i] as f64)).abs();
+                    if !(d <= 1e-4 * sc) {
+                        return (evals, Some((format!("lf-injection-superposition:{:?}", t), format!("pixel ({},{}): with LF and HF {} but LF-only {} + HF-only {} (values found in the lowest coefficient positions must be replaced by the LF-derived ones)", i % w, i / w, a[i], b[i], c[i]))));
+                    }
+                }
+            }
+            (a, b, c) => return (evals, Some((format!("lf-injection-failed:{:?}", t), format!("{:?} {:?} {:?}", a.err(), b.err(), c.err())))),
+        }
+    }
+    (evals, None)
+}
+
+/// Forward 2-D DCT of every code path (used by LF injection) against the f64 definition, and
+/// inverse(forward(x)) = x, for every block shape bw x bh with bw, bh in {1,2,4,8,16,32}.
+fn check_forward_dct(seed: u64) -> (u64, Option<(String, String)>) {
+    let mut evals = 0;
+    let mut rng = Lcg(seed ^ 0xdc7);
+    for &w in &[1usize, 2, 4, 8, 16, 32] {
+        for &h in &[1usize, 2, 4, 8, 16, 32] {
+            let mut inputs: Vec<Vec<f32>> = vec![];
+            for i in 0..w * h {
+                if w * h <= 64 || i % 37 == 0 || i < w || i % w == 0 {
+                    let mut x = vec![0f32; w * h];
+                    x[i] = 1.0;
+                    inputs.push(x);
+                }
+            }
+            inputs.push((0..w * h).map(|_| (rng.below(2001) as f32 - 1000.0) / 1000.0).collect());
+            for x in &inputs {
+                let xf: Vec<f64> = x.iter().map(|&v| v as f64).collect();
+                let want = jxlw::transforms::dct(&xf, h, w);
+                for p in vv::paths() {
+                    evals += 1;
+                    let mut buf = x.clone();
+                    let r = guard(|| {
+                        let mut g = MutableSubgrid::from_buf(&mut buf, w, h, w);
+                        vv::dct_2d(p, &mut g, vv::DctDirection::Forward);
+                    });
+                    if let Err(e) = r {
+                        return (evals, Some((format!("forward-dct-failed:{w}x{h}:{p}"), e)));
+                    }
+                    // the forward transform of a non-square block may keep its coefficients transposed (wide layout)
+                    let direct = buf.iter().zip(&want).map(|(a, b)| (*a as f64 - b).abs()).fold(0.0, f64::max);
+                    let mut tr = vec![0f64; w * h];
+                    for v in 0..h {
+                        for u in 0..w {
+                            tr[u * h + v] = want[v * w + u];
+                        }
+                    }
+                    let transposed = buf.iter().zip(&tr).map(|(a, b)| (*a as f64 - b).abs()).fold(0.0, f64::max);
+                    let natural_expected = w >= h;
+                    let d = if natural_expected { direct } else { direct.min(transposed) };
+                    if !(d <= 2e-5) {
+                        return (evals, Some((format!("forward-dct-definition:{w}x{h}"), format!("path {p}: forward DCT of a {w}x{h} block differs from the definition by {d:e}"))));
+                    }
+                    let fwd = buf.clone();
+                    let r = guard(|| {
+                        let mut g = MutableSubgrid::from_buf(&mut buf, w, h, w);
+                        vv::dct_2d(p, &mut g, vv::DctDirection::Inverse);
+                    });
+                    if let Err(e) = r {
+                        return (evals, Some((format!("inverse-dct-failed:{w}x{h}:{p}"), e)));
+                    }
+                    let d = buf.iter().zip(x).map(|(a, b)| (*a as f64 - *b as f64).abs()).fold(0.0, f64::max);
+                    if !(d <= 2e-5) {
+                        return (evals, Some((format!("dct-roundtrip:{w}x{h}"), format!("path {p}: inverse(forward(x)) differs from x by {d:e}"))));
+                    }
+                    let _ = fwd;
+                }
+            }
+        }
+    }
+    (evals, None)
 }
 
 pub fn main(args: &crate::Args) {
@@ -254,6 +451,28 @@ pub fn main(args: &crate::Args) {
         }
         results.push(m);
     }
+    // LF injection per type, forward DCT per path, AFV table
+    let lf_results = par_map(&ALL.to_vec(), n_threads(), |_, &t| check_lf_injection(t, quick, seed));
+    let mut lf_evals = 0u64;
+    for (t, (ev, viol)) in ALL.iter().zip(&lf_results) {
+        lf_evals += ev;
+        rep.outcome(if viol.is_none() { "lf-ok" } else { "lf-bad" });
+        if let Some((k, w)) = viol {
+            rep.violation(k, w, &json!({"transform": format!("{:?}", t), "part": "lf-injection"}));
+        }
+    }
+    rep.evaluations += lf_evals;
+    let (fev, fviol) = check_forward_dct(seed);
+    rep.evaluations += fev;
+    if let Some((k, w)) = fviol {
+        rep.violation(&k, &w, &json!({"part": "forward-dct"}));
+    }
+    let afv_err = jxlw::transforms::afv_basis_orthonormality_error();
+    if !(afv_err <= 1e-6) {
+        rep.violation("afv-basis-not-orthonormal", &format!("reference AFV basis: |B B^T - I| = {afv_err:e}"), &json!({}));
+    }
+    rep.extra.insert("lf_injection_runs".into(), json!(lf_evals));
+    rep.extra.insert("forward_dct_runs".into(), json!(fev));
     let mut layouts = serde_json::Map::new();
     for (t, r) in ALL.iter().zip(&results) {
         rep.evaluations += r.evals;
